@@ -101,6 +101,7 @@ func c08Families() []c08Family {
 		{"lines", []string{"a", "+", "*", "~", "!", "(", ")", "?", ":", ".", "[", "]", ","}, func(t string) [][]ref.Op { return abTables("quick")[:9] }, 2, func(string) int { return 3 }, "\n  "},
 		{"builtin", []string{"a", "1", "+", "-", "*", "^", "<", "==", "&&", "!", "not", "?", ":", "(", ")"}, func(string) [][]ref.Op { return [][]ref.Op{real.BuiltInOps()} }, 2, func(string) int { return 3 }, " "},
 		{"identop", []string{"a", "in", "not", "+", "(", ")", "ina"}, oneTable([]ref.Op{{Sym: "in", BP: 3.5, Fixity: "infixn"}, {Sym: "not", BP: 3.75, Fixity: "prefix"}, {Sym: "+", BP: 4, Fixity: "infixl"}}), 2, func(string) int { return 4 }, " "},
+		{"nonascii-op", []string{"a", "ˆ", "+ˆ", "+", "(", ")", "é"}, oneTable([]ref.Op{{Sym: "ˆ", BP: 9, Fixity: "infixr"}, {Sym: "+ˆ", BP: 7.5, Fixity: "infixn"}, {Sym: "+", BP: 7, Fixity: "infixl"}, {Sym: "é", BP: 10, Fixity: "prefix"}}), 2, func(string) int { return 4 }, " "},
 		{"literals", []string{"a", "[", "]", "{", "}", ":", ",", "(", ")"}, oneTable(nil), 2, func(t string) int {
 			if t == "thorough" {
 				return 5
